@@ -37,6 +37,8 @@ InFile(r) == r.whole \/ (r.fileok /\ LocInFile(r, r.s) /\ LocInFile(r, r.e))
 Ordered(r) == r.whole \/ r.s[3] <= r.e[3]
 \* the reported span touches the construct that caused the problem
 Within(r) == r.whole \/ ~r.hasculprit \/ (r.s[3] <= r.ce /\ r.e[3] >= r.cs)
+\* ... and it does not name lines the culprit is not on (the statement around it, the block after it)
+OnCulpritLines(r) == r.whole \/ ~r.hasculprit \/ (r.s[1] >= r.cl[1] /\ r.e[1] <= r.cl[2])
 \* what Error.Display / Diagnostic.Display need in order not to fail on this text:
 \* the start line exists, the marker length is not negative, a multi-line marker fits its line
 Renderable(r) ==
@@ -51,6 +53,7 @@ FirstBad(r) ==
     IF ~InFile(r) THEN "InFile"
     ELSE IF ~Ordered(r) THEN "Ordered"
     ELSE IF ~Within(r) THEN "Within"
+    ELSE IF ~OnCulpritLines(r) THEN "OnCulpritLines"
     ELSE IF r.what \in {"syntax", "diag"} /\ ~Renderable(r) THEN "Renderable"
     ELSE IF ~RenderedForReal(r) THEN "RenderedForReal"
     ELSE "none"
